@@ -20,3 +20,4 @@ func verifWalOpened(file any, db string)                                 {}
 func verifWalIO(file any, kind int, b []byte)                            {}
 func verifReplay(fs *fileStore, e *WALEntry, redo bool)                  {}
 func verifLRU(l *LRUCache, kind int, key any, n *btreeNode)              {}
+func verifWalTruncate(file any, size int64)                              {}
